@@ -130,7 +130,8 @@ def _tie(family, n_items, force):
 def mk1(elt, nvars, nodes, ops, family, tol=1e-12, force=False):
     nt = len(nodes) >= 2 and any(o[0] in WRITES for o in ops)
     n_items = _cost(elt, ref_hist1(elt, nvars, copy.deepcopy(nodes), copy.deepcopy(ops)))
-    tied = _tie(family, n_items, force)
+    # ops without a model constructor (OPS1[..][0] is None) are judged by the reference alone
+    tied = all(OPS1[o[0]][0] for o in ops) and _tie(family, n_items, force)
     term = hist1_term(elt, nvars, nodes, ops) if tied else None
     return Case(elt, hist1_line(elt, nvars, nodes, ops), term,
                 meta={"kind": "hist1", "nvars": nvars, "nodes": nodes, "ops": ops}, family=family + ("" if tied else "/search-only"), nontrivial=nt, tol=tol)
@@ -219,6 +220,15 @@ def gen_hist1(rng, tier, cases):
         if h % 5 == 0:   # tie only: inside the snapping window, outside the grid
             qs += [("interp", nodes[g.below(n)] + 2.0 ** -26), ("interp", nodes[0] - 0.5), ("interp", nodes[-1] + 2.0 ** -25)]
         qs = g.shuffle(qs)[:8] + [("interp", nodes[-1]), ("interp", nodes[0])]
+        if h % 5 in (1, 3):
+            # INSIDE the 1e-7 snapping window, on BOTH sides of a node and inside the grid (left of an interior node, right of it, right
+            # of the first node, left of the last one) at distances 2^-24 .. 2^-40: the property allows the line of either cell that
+            # shares the node there, and nothing else (meshlib.interp_expected)
+            k = g.range(1, n - 2) if n >= 3 else 0
+            for node, sides in ((k, (-1, 1) if n >= 3 else (1,)), (0, (1,)), (n - 1, (-1,))):
+                for sg in sides:
+                    qs.append(("interp", nodes[node] + sg * 2.0 ** -g.choice([24, 25, 26, 30, 40])))
+            qs += [("interp", 0.5 * (nodes[0] + nodes[1])), ("interp", 0.5 * (nodes[-2] + nodes[-1]))]   # mid-cell of the first / last cell
         ops += qs
         ops += [("trap", v) for v in range(nvars)]
         cases.append(mk1('f64', nvars, nodes, ops, "interp-trap1" + ("-linear" if h % 3 == 0 else "")))
@@ -227,7 +237,14 @@ def gen_hist1(rng, tier, cases):
     for h in range(N // 2):
         n = g.range(2, 12); nvars = g.range(1, 4)
         nodes = grid(g, 'f64', n)
-        ops = [("set", k, ivec(g, 'f64', nvars)) for k in range(n)]
+        if h % 3 == 1:
+            # values with MANY significant digits (more than a float32 / a 9-digit field holds): large integer data, and every
+            # node shifted by a large dyadic offset (the spacing stays >= 1/512)
+            off = g.choice([2.0 ** 20, -2.0 ** 20, 3.0 * 2.0 ** 22, 2.0 ** 30])
+            if h % 2: nodes = [x + off for x in nodes]
+            ops = [("set", k, [big_int(g) for _ in range(nvars)]) for k in range(n)]
+        else:
+            ops = [("set", k, ivec(g, 'f64', nvars)) for k in range(n)]
         prec = g.range(0, 9)
         if h % 4 == 3:
             ops.append(("reread", prec))
@@ -236,6 +253,32 @@ def gen_hist1(rng, tier, cases):
             n2 = g.choice([n, 0, 1, n + 2, g.range(0, 12)])
             ops.append(("file", prec, nv2, grid(g, 'f64', n2)))
         cases.append(mk1('f64', nvars, nodes, ops, "file1"))
+
+def big_int(rng):
+    """integer-valued, exactly representable, 7..13 significant decimal digits (or 0)"""
+    if rng.chance(1, 8): return 0.0
+    v = rng.choice([10 ** 6, 2 ** 24, 10 ** 9, 2 ** 31, 2 ** 40]) + rng.range(1, 99999)
+    return float(-v if rng.chance(1, 2) else v)
+
+def gen_fileinto(rng, tier, cases):
+    """output, then read() into a mesh that already HOLDS non-zero data: fewer / as many / more nodes than the file, every stored value
+    different from the file's (two-digit values against the file's one-digit ones, so a value that survives the read is visible at every
+    precision), file data with zeros, equal neighbours and sign changes; then every read path and the quadrature on the mesh read"""
+    N = 40 if tier == "quick" else 250
+    g = rng.fork("fileinto")
+    for h in range(N):
+        n = g.range(2, 12); nvars = g.range(1, 4)
+        nodes = grid(g, 'f64', n)
+        rows = [ivec(g, 'f64', nvars) for _ in range(n)]
+        rows[g.below(n)][g.below(nvars)] = 0.0                     # a stored zero
+        if h % 4 == 1: rows = [[float((-1) ** k * (1 + k % 3))] * nvars for k in range(n)]      # alternating sign
+        if h % 4 == 2: rows = [[float(g.range(-9, 9))] * nvars] * n                             # all nodes equal
+        ops = [("set", k, list(rows[k])) for k in range(n)]
+        n2 = [n, n, max(n - g.range(1, 3), 0), n + g.range(1, 3), 1, 0][h % 6]
+        nodes2 = grid(g, 'f64', n2)
+        data2 = [float(g.range(11, 99) * g.choice([1, -1])) for _ in range(n2 * nvars)]
+        ops.append(("fileinto", g.range(0, 9), nodes2, data2))
+        cases.append(mk1('f64', nvars, nodes, ops, "file1-into"))
 
 def rand_ast(rng, elt, depth=2):
     k = rng.below(6) if depth > 0 else rng.below(2)
@@ -334,6 +377,7 @@ def generate(rng, tier):
                  ("hist2-rat", 45000), ("hist2-f64", 18000), ("index-map", 30000), ("quad2", 14000), ("quad2-bilinear", 14000)):
         BUDGET[f] = per * b
     gen_hist1(rng, tier, cases)
+    gen_fileinto(rng, tier, cases)
     gen_hist2(rng, tier, cases)
     return rng.fork("order").shuffle(cases)      # the model side is sharded in order: spread the heavy families
 
